@@ -1,6 +1,7 @@
 import Driver.Util
 import NutsModel.C16.Discovery
 import NutsModel.C16.Node
+import NutsModel.C16.Client
 import NutsModel.Facts.C16
 open Lean Nuts.Drv Nuts.C16 Nuts
 
@@ -40,6 +41,9 @@ structure St where
   nw : NWorld := {}
   nids : List String := []
   nt0 : Nat := 0
+  -- round 3: the client node mirroring every list of the configuration (NutsModel/C16/Client.lean)
+  cn : Node := {}
+  cctr : Nat := 0
 
 def nameSeed (st : St) (s : Nat) : St × String :=
   if s = 0 then (st, "-") else
@@ -173,7 +177,8 @@ def step' (st : St) (j : Json) : St × List String :=
       let all := sortStrs (defs.all.map fun (k, s) => s!"{k}={s.d.id}:{s.d.maxValidity}:{if s.d.didMethods.isEmpty then "-" else String.intercalate "," s.d.didMethods}")
       let srv := sortStrs (defs.server.map fun (k, s) => s!"{k}={s.d.id}")
       let t0 := jNat j "t0"
-      ({ st with nw := { n := { defs := defs }, t := t0 }, nids := sortStrs (defs.all.map (·.1)), nt0 := t0 },
+      ({ st with nw := { n := { defs := defs }, t := t0 }, nids := sortStrs (defs.all.map (·.1)), nt0 := t0,
+                 cn := { defs := { all := defs.all, server := [] } }, cctr := 0 },
        [s!"nconf ok all=[{String.intercalate " " all}] server=[{String.intercalate " " srv}]"])
     | o => ({ st with nw := {}, nids := [] }, ["nconf " ++ o.cls])
   | "nregister" =>
@@ -198,6 +203,23 @@ def step' (st : St) (j : Json) : St × List String :=
       | none => "not-found"
       | some rows => "[" ++ String.intercalate " " (sortStrs (rows.map (·.id))) ++ "]"
     (st, ["nsearchq " ++ line])
+  -- `clientUpdater.update` of the second node: every list of the configuration, answered by the first node's `Get` where it
+  -- serves the list (no forwarding header) and failing otherwise
+  | "nupdate" =>
+    let st := ntick st j
+    let srv := st.nw.n
+    let ans : String → Nat → Answer := fun sid after =>
+      if (srv.defs.server.get sid).isSome then
+        match srv.get sid { header := none, headerHost := none } (after : Int) with
+        | .rows rows seed ts => .resp (rows.map (·.vp)) seed ts
+        | _ => .fail
+      else .fail
+    let ((cn', ctr'), failed) := st.cn.updateAllServices cfg st.nw.t st.cctr st.nids ans
+    let st := { st with cn := cn', cctr := ctr' }
+    let lists := String.join (st.nids.map fun id =>
+      let s := st.cn.stores id
+      s!" | {id} seed={if s.seed = 0 then "-" else "+"} ts={s.lastTs} [{String.intercalate " " (sortStrs (s.rows.map (showRow s st.nt0 true)))}]")
+    (st, [s!"nupdate ok failed=[{String.intercalate "," (sortStrs failed)}]{lists}"])
   | "nrestart" =>
     let st := ntick st j
     let (w', _) := nstep st.nw .restart
